@@ -85,6 +85,12 @@ CHECKS = {
         "text": "Rows.tla defines Column(f, rows)[i] = f[rows[i]] with the declared storage type; MC_Rows shows which sequences of result kinds are corrupted when the storage type is inferred from the first row (the replay seeds: narrowest result first). For every internal rule (all validity periods) argument rows are drawn, the raw scalar rule is applied to each row alone, and the production column is computed through the public API with the rule as only target in narrowest-first and widest-first order; TLC validates every cell exactly, the dtype against the declared result type and, with a history variable per rule, that the dtype does not depend on the data.",
         "note": "Per-row numeric predicate: exploration level. Argument rows are seeded draws from threshold-oriented value lists (24 rows quick, 120 thorough); rows on which the scalar rule raises are discarded; rules that are already array functions or parameter-only are skipped.",
     },
+    "C18": {
+        "level": "model_checking",
+        "technique": "TLA+ schedules over exact decimals (Schedules.tla): well-formedness, parser obligations and shape lemmas decided per interval from the coefficients by TLC for every dated version; exact evaluation at thresholds +-1 ulp compared with piecewise_polynomial (Trace_Sched)",
+        "text": "For every day on which a piecewise_* parameter changes, every schedule in force is presented to TLC in raw form (the law) and in parsed form (the implementation's arrays): TLC checks coverage of the real line with strictly increasing thresholds, that thresholds / rates / progression factors / generated intercepts are what the raw entries determine, and, from the coefficients alone and hence for all real arguments, that the income-tax schedule is zero up to the allowance, continuous, non-decreasing, convex and bounded by the top rate and that the solidarity surcharge is continuous, non-decreasing and at most its nominal rate times the tax plus one cent. The real evaluator (piecewise_polynomial and the tariff helper) is compared with the exact value at every threshold, +-1 ulp, mid-points and extremes.",
+        "note": "All change days of piecewise parameters since 1980 (quick: latest 30 + seeded earlier ones); exact decimals with 1e-12 (parser) and 1e-9 (evaluation) relative tolerance for binary floating point; shape lemmas for degree <= 2.",
+    },
 }
 
 NOT_APPLICABLE = {}
